@@ -408,3 +408,35 @@ reg(Contract(AB + 'find_or_add', [('self', 'abdd'), ('var', 'name'), ('low', 'ha
                  ('reordering-setting-kept', And(c.S1.lastlen == c.S0.lastlen, c.S1.ctx == c.S0.ctx))]),
                  'RuntimeError': Raise(when=lambda c: BoolVal(True))},
              note='requests are suspended around the primitive and restored in `finally` (fix 47be9a0): the signal cannot escape'))
+
+
+# ---- let (constants / names) and support through the handle ------------------------------------------------------------------
+def alet_contract(kind, inner_key):
+    inner = REG[inner_key]
+
+    def conv(c):
+        a = type(c.a)(**{**c.a.__dict__})
+        a.self = c.S
+        return type(c)(**{**c.__dict__, 'a': a})
+
+    def pre(c):
+        return inner.pre(conv(c)) + [live(c, 'u'), ('same-manager', same(c, 'u'))]
+
+    def post(c):
+        from vlib.vc.symex import nonempty
+        S0, S1, r = c.S0, c.S1, c.r
+        ne = nonempty(c.a.definitions)
+        g0 = guard(S0)
+        inner_post = [(nm, g) for nm, g in inner.post(conv(c)) if not nm.startswith('empty-definitions') and nm != 'Ext']
+        return [('empty-definitions-return-the-same-handle', Implies(Not(ne), And(r == c.a.u, M.keep(S0, S1))))] + \
+               [(nm, g) for nm, g in inner_post] + \
+               [('ledger', Implies(And(ne, g0), ledger(S0, S1, [r]))),
+                ('Ext', Implies(And(ne, g0), Ext(S0, S1, set(inner.uses) - {'rc'})))] + control(S0, S1)
+    k = reg(Contract(AB + 'let:' + kind, [('self', 'abdd'), ('definitions', f'dict:name->{kind}'), ('u', 'handle')], mgr=MKEY, pre=pre, post=post,
+                     modifies=M.ALLF, ret='handle', uses=set(inner.uses) | {'rc', 'cache'},
+                     raises={e_: Raise(when=(lambda c, rs=rs: rs.when(conv(c))), post=rs.post, must=False) for e_, rs in inner.raises.items()}))
+    return k
+
+
+alet_contract('bool', 'dd.bdd.BDD.let:bool')
+alet_contract('name', 'dd.bdd.BDD.let:name')
